@@ -124,6 +124,11 @@ def tlc_phase(ctx, flags):
     ]
     for name, kw in emits:
         jobs.append(("emit_" + name, gen_cfg(ctx, "emit_" + name.replace("-", "_"), keep=True, emit=True, flags=flags, **kw), "EMIT"))
+    # what a C git client can produce: under the parameters of the code, and under the repaired ones (git itself)
+    for tag, fl in (("code", flags), ("ref", REPAIRED)):
+        jobs.append((f"emit_git-solo-{tag}", gen_cfg(ctx, f"emit_git_solo_{tag}", keep=True, emit=True, flags=fl, inits="RaceInits", pushin="GitSolo"), "EMIT"))
+        jobs.append((f"emit_git-race-{tag}", gen_cfg(ctx, f"emit_git_race_{tag}", keep=True, emit=True, flags=fl, pushers="{1, 2}", inits="RaceInits",
+                                                     pushin="GitRace"), "EMIT"))
 
     def one(job):
         name, cfg, expect = job
@@ -268,7 +273,10 @@ def tla_trace(tr, tid):
         elif e["op"] == "done":
             ev.append({"p": e["p"], "op": "done", "unp": e["unp"], "st": e["st"], "refs": e["refs"] + pad,
                        "store": e["store"], "rest": e.get("rest", 0)})
-    return {"tid": tid, "refs0": tr["refs0"] + pad, "store0": tr["store0"], "push": tr["push"], "ev": ev}
+    # the monitor looks at two capabilities only; dropping the others lets executions that differ
+    # in framing alone share one TLC evaluation (their statuses were decoded by the real client)
+    push = [{**d, "caps": [c for c in d["caps"] if c in ("report-status", "atomic")]} for d in tr["push"]]
+    return {"tid": tid, "refs0": tr["refs0"] + pad, "store0": tr["store0"], "push": push, "ev": ev}
 
 
 class Judge:
@@ -487,7 +495,7 @@ def run(ctx):
 
     # third opinion: C git pushing to a dulwich TCP server (and to C git itself, to validate the spec)
     from .. import c06_git
-    c06_git.run(ctx, judge, tpl)
+    c06_git.run(ctx, judge, tpl, behs["git-solo-ref"] + behs["git-race-ref"], behs["git-solo-code"] + behs["git-race-code"])
 
     judge.run()
     ctx.cov["rule"] = ("one real execution per (case, schedule); distinct = distinct (space, case, projection of the execution: ref "
